@@ -18,6 +18,7 @@ var c10BagFuncs = []string{"ShuffleSequences", "sampleSeqBag"}
 
 func runC10(c *Ctx) {
 	L := c.L
+	c.checkNoLibraryGlobalWrites("library-global-state")
 	L.Rule("draw-index-safe", "every index or slice expression on a row buffer, on the row list or on an alphabet table in a randomised operation is within bounds on every path (linear entailment using 0 <= rand.Intn(n) <= n-1, the element range of rand.Perm(n) and of slices filled with draws, guards and loop induction)")
 	var fns []*fnRef
 	for _, n := range c10AlignFuncs {
